@@ -294,15 +294,13 @@ def registered_checks(eng):
         owner = "general" if f.module.name == "fcp.verifier" else f.module.name.split(".")[0]
         out.append((f, d.args[0] if d.args else None, cat, owner))
     # also direct verifier.register(fn, cat) calls
-    for sites in eng.cg.sites.values():
-        for cs in sites:
-            if "fcp.verifier.Verifier.register" in cs.callees and cs.caller.qual != "fcp.verifier.register.<locals>.decorator":
-                a0 = cs.node.args[0] if cs.node.args else None
-                r = eng.prog.resolve_expr_symbol(cs.caller.module, cs.caller, a0) if a0 is not None else None
-                if r and r[0] == "func":
-                    cat = cs.node.args[1].value if len(cs.node.args) > 1 and isinstance(cs.node.args[1], ast.Constant) else None
-                    owner = "general" if cs.caller.module.name == "fcp.verifier" else cs.caller.module.name.split(".")[0]
-                    out.append((eng.prog.functions[r[1]], cs.node.func.value if isinstance(cs.node.func, ast.Attribute) else None, cat, owner))
+    for g, cs in getattr(eng.cg, "registered_direct", []):
+        cat = cs.node.args[1].value if len(cs.node.args) > 1 and isinstance(cs.node.args[1], ast.Constant) else None
+        for k in cs.node.keywords:
+            if k.arg == "category" and isinstance(k.value, ast.Constant):
+                cat = k.value.value
+        owner = "general" if cs.caller.module.name == "fcp.verifier" else cs.caller.module.name.split(".")[0]
+        out.append((g, cs.node.func.value if isinstance(cs.node.func, ast.Attribute) else None, cat, owner))
     return out
 
 
@@ -554,7 +552,7 @@ def verification_path(eng):
         f = prog.functions[q]
         if f.module.name == "fcp.verifier" and f.name not in ("register", "__init__", "decorator", "make_general_verifier"):
             out.append(f)
-    for f, _ in cg.registered:
+    for f, _ in list(cg.registered) + list(getattr(cg, "registered_direct", [])):
         if f not in out:
             out.append(f)
     return out
@@ -585,6 +583,8 @@ def r092(eng, rep, regs) -> None:
                     r = [x for x in st.body if isinstance(x, ast.Return)]
                     if r and r[-1].value is not None:
                         branches[t.comparators[0].value] = r[-1].value
+                else:
+                    scan(st.body)  # a guard around the chain (e.g. a type test of the argument)
                 scan(st.orelse)
     scan(get.node.body)
     want_pop = {
@@ -623,7 +623,11 @@ def r093(eng, rep) -> None:
     if not (verify and runc and reg):
         raise AnalysisError("anchor vanished: Verifier.verify/run_checks/register")
     for m in (verify, runc):
-        rep.check(m.has_decorator("catch"), "R09.3", m.file, m.qual, "@catch", "propagation frame present", "no @catch: a rejecting check raises ResultAttemptError out of the verifier instead of returning an error")
+        uses_attempt = any(isinstance(n, ast.Call) and isinstance(n.func, ast.Attribute) and n.func.attr == "attempt" for n in ast.walk(m.node))
+        if uses_attempt:
+            rep.check(m.has_decorator("catch"), "R09.3", m.file, m.qual, "@catch", "propagation frame present", "no @catch: a rejecting check raises ResultAttemptError out of the verifier instead of returning an error")
+        else:
+            rep.ok("R09.3", m.file, m.qual, "no attempt() in the body", "verdicts are propagated by explicit returns; no propagation frame needed")
     # verify: for category in self.categories: self.run_checks(category, fcp).attempt()
     def loop_calls_attempt(m: FuncInfo, iter_pred, callee_pred, what):
         fors = [n for n in walk_local(m.node) if isinstance(n, ast.For)]
@@ -646,6 +650,25 @@ def r093(eng, rep) -> None:
                         rep.violation("R09.3", m.file, m.qual, norm(st, 80), what + " is consumed only conditionally (%s): some verdicts are skipped" % ", ".join(type(x).__name__ for x in cond + esc))
                         good = True
         if not good:
+            # explicit propagation: `x = <call>` immediately followed by `if <x is not Ok>: return x`, directly in the loop body
+            for fo in fors:
+                if not iter_pred(fo):
+                    continue
+                for i, st in enumerate(fo.body):
+                    if isinstance(st, ast.Assign) and len(st.targets) == 1 and isinstance(st.targets[0], ast.Name) and isinstance(st.value, ast.Call) and callee_pred(st.value) and i + 1 < len(fo.body):
+                        x = st.targets[0].id
+                        nx = fo.body[i + 1]
+                        if isinstance(nx, ast.If) and not nx.orelse and len(nx.body) == 1 and isinstance(nx.body[0], ast.Return) and isinstance(nx.body[0].value, ast.Name) and nx.body[0].value.id == x:
+                            t = norm(nx.test)
+                            rejecting = t in ("not isinstance(%s, Ok)" % x, "%s.is_err()" % x, "not %s.is_ok()" % x, "isinstance(%s, Err)" % x)
+                            if t in ("not isinstance(%s, Ok)" % x, "not %s.is_ok()" % x):
+                                good = True
+                                rep.ok("R09.3", m.file, m.qual, "%s; if %s: return %s" % (norm(st, 50), t, x), what + " returned as it is whenever it is not Ok")
+                            elif rejecting:
+                                good = True
+                                rep.undecided("R09.3", m.file, m.qual, "%s; if %s: return %s" % (norm(st, 50), t, x), what + " is returned when it is an error; a Nothing verdict (category without population) is not propagated the way attempt() did")
+            if good:
+                return
             # is there a call at all whose verdict is dropped?
             dropped = [n for n in walk_local(m.node) if isinstance(n, ast.Expr) and isinstance(n.value, ast.Call) and callee_pred(n.value)]
             if dropped:
